@@ -55,6 +55,69 @@ func specStr(es world.EntSpec) string {
 type c06World struct {
 	rw   *regWorld
 	tree map[string]map[string]world.EntSpec // peer -> entity key -> announced spec
+	// every entity object the API ever handed out, per peer (an application keeps such handles, e.g. from events)
+	handles map[string][]api.EntityRemoteInterface
+}
+
+// collectHandles remembers the entity objects the API reports now.
+func (c *c06World) collectHandles() {
+	for _, p := range []string{"A", "B"} {
+	next:
+		for _, e := range c.rw.w.Peers[p].Dev.Entities() {
+			for _, h := range c.handles[p] {
+				if h == e {
+					continue next
+				}
+			}
+			c.handles[p] = append(c.handles[p], e)
+		}
+	}
+}
+
+var c06TypeRoles = []struct {
+	t model.FeatureTypeType
+	r model.RoleType
+}{{model.FeatureTypeTypeLoadControl, model.RoleTypeClient}, {model.FeatureTypeTypeLoadControl, model.RoleTypeServer},
+	{model.FeatureTypeTypeMeasurement, model.RoleTypeServer}, {model.FeatureTypeTypeMeasurement, model.RoleTypeClient}}
+
+// staleHandles: what the device reports for an entity handle, a feature type and a role is a feature of its current
+// tree (the feature of that type and role of that very entity if the handle is still part of the tree), and nothing
+// for an entity that was announced as removed, was replaced, or belongs to another device.
+func (c *c06World) staleHandles() (viol []string) {
+	for _, q := range []string{"A", "B"} {
+		dev := c.rw.w.Peers[q].Dev
+		current := map[api.EntityRemoteInterface]bool{}
+		for _, e := range dev.Entities() {
+			current[e] = true
+		}
+		for _, owner := range []string{"A", "B"} {
+			for _, h := range c.handles[owner] {
+				for _, tr := range c06TypeRoles {
+					got := dev.FeatureByEntityTypeAndRole(h, tr.t, tr.r)
+					if !current[h] {
+						if got != nil {
+							viol = append(viol, fmt.Sprintf("device %s reports a feature for an entity that is not (any more) part of its tree | entity %v of peer %s, %s/%s -> %v", q, h.Address().Entity, owner, tr.t, tr.r, got.Address()))
+						}
+						continue
+					}
+					var want api.FeatureRemoteInterface
+					for _, f := range h.Features() {
+						if f.Type() == tr.t && f.Role() == tr.r {
+							want = f
+							break
+						}
+					}
+					if got != want {
+						viol = append(viol, fmt.Sprintf("device %s: feature by entity, type and role differs from the entity's announced features | entity %v, %s/%s", q, h.Address().Entity, tr.t, tr.r))
+					}
+				}
+			}
+		}
+	}
+	if len(viol) > 3 {
+		viol = viol[:3]
+	}
+	return
 }
 
 var c06Prelude = []string{"sub:A:e1f1:L1lc:lc:d", "sub:A:e2f1:L2lc:lc:d", "sub:B:e1f1:L1lc:lc:d", "bind:A:e1f2:L1lc:lc:d", "bind:B:e1f1:L2lc:lc:d",
@@ -62,7 +125,7 @@ var c06Prelude = []string{"sub:A:e1f1:L1lc:lc:d", "sub:A:e2f1:L2lc:lc:d", "sub:B
 	"lsub:1:A:1", "lbind:1:A:2", "lsub:1:B:1", "lsub:2:A:2", "lbind:1:B:2", "lbind:2:A:1", "lbind:2:B:1", "lsub:2:B:2"}
 
 func newC06World() *c06World {
-	c := &c06World{rw: newRegWorld(true, false), tree: map[string]map[string]world.EntSpec{}}
+	c := &c06World{rw: newRegWorld(true, false), tree: map[string]map[string]world.EntSpec{}, handles: map[string][]api.EntityRemoteInterface{}}
 	c.rw.evOn = true
 	rt.WaitIdle()
 	for _, p := range []string{"A", "B"} {
@@ -71,6 +134,7 @@ func newC06World() *c06World {
 	for _, op := range c06Prelude {
 		c.rw.apply(op, false)
 	}
+	c.collectHandles()
 	return c
 }
 
@@ -234,9 +298,11 @@ func (c *c06World) apply(op string, judge bool) (viol []string, digest string, e
 	rt.JoinFinished()
 	effect = added+removed > 0
 	digest = fmt.Sprintf("%s:+%d-%d", f[0], added, removed)
+	defer c.collectHandles()
 	if !judge {
 		return nil, digest, effect
 	}
+	viol = append(viol, c.staleHandles()...)
 	for _, q := range []string{"A", "B"} {
 		it, rf := c.implTree(q), c.refTree(q)
 		if strings.Join(it, "\n") != strings.Join(rf, "\n") {
